@@ -15,6 +15,7 @@ class Prop(SeqProp):
     pid = "C18"
     model = "forkfile"
     anchors = ["windpyutils/files.py"]
+    case_timeout = 120.0
     quick_cases = 150
     thorough_cases = 900
     rule = ("a file of 12 lines opened in a parent, then a tree of up to 6 really forked processes (children and "
